@@ -1273,7 +1273,7 @@ def ids_family(run, replay=None):
         if thorough:
             words = sample(words, 60000, run.seed)
         attacks = []
-        for g in ["duplicate_rejected", "iid_counter_starts_at_one"]:
+        for g in ["duplicate_rejected", "iid_counter_starts_at_one", "automatic_id_skips_taken"]:
             a = run.generate('IdsMC', cfgtext='CONSTANTS\n  MaxAcc = 3\n  Explicit = {0, 1, 2, 3}\n  Shapes <- ShapesDef\n  Weak = %s\nINIT Init\nNEXT Next\nINVARIANT NoAttack\nCHECK_DEADLOCK FALSE\n' % tla_set([g]), expect_violation=True)
             if not a:
                 raise ToolTrouble('no attack word for guard %s' % g)
